@@ -273,6 +273,27 @@ func genSeg(t *rapid.T, level string) segCase {
 				r.Payload, r.ByteCount = gen.Payload(t, "p23", 2*int(r.WQty)), uint8(2*int(r.WQty))
 			}
 		}
+		// a fraction of the requests is malformed in a way for which the specification prescribes the reply: an unsupported
+		// function code (exception 01) or an out-of-range quantity / coil value (exception 03). They must be consumed and answered
+		// like any other request, whatever the segmentation.
+		switch rapid.IntRange(0, 7).Draw(t, "malformed") {
+		case 0:
+			bad := []uint8{7, 8, 11, 20, 22, 24, 43, 65, 100, 127}
+			r = spec.Req{FC: rapid.SampledFrom(bad).Draw(t, "ufc"), Unit: r.Unit, Tx: r.Tx, Payload: gen.Payload(t, "ubody", rapid.IntRange(1, 20).Draw(t, "ubody_n"))}
+		case 1:
+			switch r.FC {
+			case 1, 2:
+				r.Qty = rapid.SampledFrom([]uint16{0, 2001, 65535}).Draw(t, "bad_qty")
+			case 3, 4, 23:
+				r.Qty = rapid.SampledFrom([]uint16{0, 126, 65535}).Draw(t, "bad_qty")
+			case 5:
+				r.Value = rapid.SampledFrom([]uint16{1, 0xFF01, 0xFFFF}).Draw(t, "bad_value")
+			case 15:
+				r.Qty = rapid.SampledFrom([]uint16{0, 1969, 65535}).Draw(t, "bad_qty")
+			case 16:
+				r.Qty = rapid.SampledFrom([]uint16{0, 124, 65535}).Draw(t, "bad_qty")
+			}
+		}
 		c.Requests = append(c.Requests, r)
 	}
 	p := mkPlan(segCase{Requests: c.Requests, DevSeed: c.DevSeed})
